@@ -22,6 +22,8 @@ TEMPLATES = {
     "two_zones": [("Z1", "H1", 200.0, 100.0, 2.0, 5.0), ("Z2", "C1", 60.0, 160.0, 3.0, 5.0)],
     "three": [("Z1", "H1", 250.0, 120.0, 2.0, 5.0), ("Z1", "C1", 110.0, 180.0, 3.0, 5.0), ("Z2", "H2", 140.0, 40.0, 1.0, 5.0)],
 }
+# two separated pinches (shifted 160 and 80) with the cascade lifting off zero between them
+TEMPLATES["two_pinches"] = [("Z1", "HA", 205.0, 85.0, 1.0, 5.0), ("Z1", "HB", 165.0, 125.0, 2.0, 5.0), ("Z1", "HC", 85.0, 45.0, 2.0, 5.0), ("Z1", "C1", 75.0, 195.0, 2.0, 5.0)]
 MIRROR_AXIS = 500.0
 
 
@@ -202,7 +204,11 @@ def cases(tier, seed):
         out.append({"template": "two_zones", "transform": "translate", "sweep": False, "utils": True})
         out.append({"template": "one_zone", "transform": "mirror"})
         out.append({"template": "one_zone", "transform": "split_T", "split": 1, "sweep": False, "tree": True, "same_names": True})
+        out.append({"template": "two_pinches", "transform": "split_T", "split": 3, "sweep": False})
     else:
+        out.append({"template": "two_pinches", "transform": "split_T", "split": 3, "sweep": False})
+        out.append({"template": "two_pinches", "transform": "split_T", "split": 0, "sweep": False})
+        out.append({"template": "two_pinches", "transform": "split_parallel", "split": 3, "sweep": False})
         for tp in ("one_zone", "two_zones", "three"):
             for tr in ("permute", "split_parallel", "mirror"):
                 out.append({"template": tp, "transform": tr, "lam": 0.5, "split": 1})
